@@ -60,13 +60,15 @@ ONLY = ["group_*"]
 STRATEGIES = ["range", "roundrobin", "sticky"]
 
 # non-vacuity: broken variants of the model and the clause family each one has to violate
-BUGS_QUICK = ["skip_cleanup", "claim_at_initial", "keep_member_id", "claim_fail_no_cancel"]
+BUGS_QUICK = ["skip_cleanup", "claim_fail_no_cancel", "fence_keeps_id_without_budget", "final_commit_one_short"]
 BUG_EXPECT = {"claim_fail_no_cancel": "ClaimFailEndsSession"}   # default: NoViolation
-BUGS_ALL = BUGS_QUICK + ["stale_hb_identity", "skip_setup", "no_final_commit", "cleanup_early", "stale_commit_identity"]
+BUG_BASE = {"fence_keeps_id_without_budget": "Group.mc.retry.cfg", "final_commit_one_short": "Group.mc.retry.cfg",
+            "claim_fail_no_cancel": "Group.mc.retry.cfg"}   # default: Group.bug.cfg
+BUGS_ALL = BUGS_QUICK + ["keep_member_id", "claim_at_initial", "stale_hb_identity", "skip_setup", "no_final_commit", "cleanup_early", "stale_commit_identity"]
 
 
 def bug_cfg(ctx, bug):
-    src = open(os.path.join(vlib.SPEC, "cfg", "Group.bug.cfg")).read()
+    src = open(os.path.join(vlib.SPEC, "cfg", BUG_BASE.get(bug, "Group.bug.cfg"))).read()
     p = os.path.join(ctx.scratch, "Group.bug.%s.cfg" % bug)
     with open(p, "w") as f:
         f.write(src.replace('Bug = "none"', 'Bug = "%s"' % bug))
@@ -84,8 +86,9 @@ def oor_cfg(ctx):
 
 def model_check(ctx):
     thorough = ctx.tier == "thorough"
-    plan = [("Group.mc.one.cfg", 8, 1500), ("Group.mc.two.cfg", 8, 2400), ("Group.oor.cfg", 3, 600)] if thorough else \
-           [("Group.mc.quick1.cfg", 6, 400), ("Group.mc.quick2.cfg", 3, 400), ("Group.oor.cfg", 3, 400)]
+    plan = [("Group.mc.one.cfg", 8, 1500), ("Group.mc.two.cfg", 8, 2400), ("Group.oor.cfg", 3, 600),
+            ("Group.mc.retry.cfg", 3, 600)] if thorough else \
+           [("Group.mc.quick1.cfg", 6, 400), ("Group.mc.quick2.cfg", 3, 400), ("Group.oor.cfg", 3, 400), ("Group.mc.retry.cfg", 3, 400)]
     bugs = BUGS_ALL if thorough else BUGS_QUICK
     with concurrent.futures.ThreadPoolExecutor(max_workers=5) as ex:
         mcf = [ex.submit(ctx.tlc, "Group", cfg, w, tmo, None, None, None, None, None, False, None, None, False, "mc") for cfg, w, tmo in plan]
@@ -120,6 +123,7 @@ def classes(sc, fine):
     """coverage classes of a scenario: what the stratified sample has to hit"""
     out = set()
     out.add("members=%d" % len(sc["clients"]))
+    out.add("rretry=%s/oretry=%s" % (sc.get("rretry"), sc.get("oretry")))
     out.add("init=%d/committed=%s" % (sc["initial"], ",".join("none" if x < 0 else "oor" if x > sc["loglen"] else "in" for x in sc["committed"])))
     for c in sc["clients"]:
         if c["pre"] != "none":
@@ -219,7 +223,7 @@ def gen_cases(ctx, out):
             n += 1
         # one partition of the subscribed topic is leaderless in the metadata when the leader balances (C08 on the wire:
         # it still has to be assigned; its claim then fails to start and ends the session - code behaviour, accepted)
-        for sc in leaderless_scenarios():
+        for sc in leaderless_scenarios() + retry_scenarios():
             f.write(json.dumps(sc, separators=(",", ":")) + "\n")
             n += 1
         # partition-count change while a session runs (configuration family, not a model action)
@@ -290,6 +294,33 @@ def shutdown_scenarios():
     out.append(_scen("sd-refresh0-close", [_client("c1", [_sess("drain", 1, 1, ("close", "claim"))])], refresh0=True))
     out.append(_scen("sd-refresh0-empty-close", [_client("c1", [_sess("drain", 1, 1), _sess("drain", 1, 1, ("close", "claim"))]),
                                                  _client("c2", [_sess("drain", 0, 0, ("close", "claim"))])], np=1, refresh0=True))
+    return out
+
+
+def retry_scenarios():
+    """configuration family: Consumer.Group.Rebalance.Retry.Max in {0,1,2} with retriable join / sync answers consuming exactly the
+    budget before a fence (UNKNOWN_MEMBER_ID on sync, on join, or on a heartbeat followed by the refused rejoin), and
+    Consumer.Offsets.Retry.Max in {0,1,3} with 0..N (and N+1 for N<=1) retriable failures of the final commit."""
+    out = []
+    kinds = ["rebalance", "notcoord"]
+    ok = _sess("early", 1, 1)
+    for rr in (0, 1, 2):
+        burn = [kinds[(rr + i) % 2] for i in range(rr)]
+        fam = [("syncfence-s", [_sess("early", 1, 1, sf=burn + ["unknown"]), ok, ok]),
+               ("syncfence-j", [_sess("early", 1, 1, jf=burn + ["ok"], sf=["unknown"]), ok, ok]),
+               ("joinfence", [ok, _sess("early", 1, 1, jf=burn + ["unknown"]), ok]),
+               ("hbfence", [_sess("drain", 1, 1, ("hb_unknown", "claim")), _sess("early", 1, 1, jf=burn), ok])]
+        for name, sess in fam:
+            sc = _scen("retry-rr%d-%s" % (rr, name), [_client("c1", sess)], np=1, rretry=rr, nonet=False)
+            sc["fam"] = "retry"
+            out.append(sc)
+    for orr in (0, 1, 3):
+        for fails in range(0, orr + 2 if orr <= 1 else orr + 1):
+            cf = [kinds[(orr + i) % 2] for i in range(fails)]
+            sc = _scen("retry-or%d-fail%d" % (orr, fails), [_client("c1", [_sess("early", 2, 2, cf=cf), _sess("early", 1, 1)])], np=1,
+                       loglen=3, oretry=orr, nonet=False)
+            sc["fam"] = "retry"
+            out.append(sc)
     return out
 
 
@@ -446,7 +477,7 @@ def final_commit_cause(head, mine):
             marks.setdefault(x["p"], []).append(x["off"])
         elif x["ev"] == "cleanup":
             cleanup = True
-        elif x["ev"] == "commit" and (cleanup or x.get("applied")):
+        elif x["ev"] == "commit" and x.get("applied"):
             for p, off in x["blocks"]:
                 carried.setdefault(p, set()).add(off)
     missing = [p for p, ms in marks.items() if max(ms) not in carried.get(p, set())]
@@ -513,7 +544,7 @@ def run(ctx):
         r0 = refresh0_family(ctx, trace)
         ncases += 1
         executed["refresh0"] = 1
-        rs = ctx.tlc_trace("GroupTrace", "GroupTrace.cfg", trace, shards=10 if thorough else 6, timeout=1500)
+        rs = ctx.tlc_trace("GroupTrace", "GroupTrace.cfg", trace, shards=10 if thorough else 4, timeout=1500)
         t3 = time.time()
         mcs, bgs = mcf.result()
         ctx.say("C07 phases: generation %.1fs (%d scenarios), replay on real code %.1fs, trace validation %.1fs, model checking %s "
